@@ -13,18 +13,77 @@ theorem jrun_append (c : Chain) (s : JState) (a b : List Call) :
     | none => simp
     | some s' => simpa using ih s'
 
-theorem hist_succ (c : Chain) (n : Nat) : hist c (n + 1) = hist c n ++ [(n + 1, c (n + 1))] := by
-  simp [hist, List.range_succ]
+/-! ## block indexes: the k-th block of the chain (k ≥ 1) has height `ht c k`; `ht c 0 = 0` is
+"nothing yet" -/
 
-theorem hist_length (c : Chain) (n : Nat) : (hist c n).length = n := by simp [hist]
+def ht (c : Chain) (k : Nat) : Nat := if k = 0 then 0 else c.ihPred + k
 
-/-- the application is at committed height `n` with the canonical history, has the open execution
-`p`, and its journal drives the grammar automaton to exactly that state -/
-structure AppAt (c : Chain) (a : App) (n : Nat) (p : Option Pending) : Prop where
-  height : a.height = n
-  hash : a.hash = hist c n
+/-- history after the first `k` blocks -/
+def histK (c : Chain) (k : Nat) : Hist := (List.range k).map fun i => (c.ih + i, c (c.ih + i))
+
+@[simp] theorem ht_zero (c : Chain) : ht c 0 = 0 := rfl
+theorem ht_succ (c : Chain) (k : Nat) : ht c (k + 1) = c.ihPred + k + 1 := by simp [ht]; omega
+theorem ht_pos (c : Chain) (k : Nat) : 0 < ht c (k + 1) := by rw [ht_succ]; omega
+
+theorem nxt_ht (c : Chain) (k : Nat) : nxt c (ht c k) = ht c (k + 1) := by
+  cases k with
+  | zero => simp [nxt, ht, Chain.ih]
+  | succ k => simp [nxt, ht_succ]; omega
+
+theorem ht_lt (c : Chain) {a b : Nat} (h : a < b) : ht c a < ht c b := by
+  cases b with
+  | zero => omega
+  | succ b =>
+    cases a with
+    | zero => simpa using ht_pos c b
+    | succ a => rw [ht_succ, ht_succ]; omega
+
+theorem ht_inj (c : Chain) {a b : Nat} (h : ht c a = ht c b) : a = b := by
+  rcases Nat.lt_trichotomy a b with h1 | h1 | h1
+  · have := ht_lt c h1; omega
+  · exact h1
+  · have := ht_lt c h1; omega
+
+theorem hist_ht (c : Chain) (k : Nat) : hist c (ht c k) = histK c k := by
+  cases k with
+  | zero => simp [hist, histK, ht, Chain.ih]
+  | succ k =>
+    have : ht c (k + 1) + 1 - c.ih = k + 1 := by rw [ht_succ]; simp [Chain.ih]; omega
+    simp [hist, histK, this]
+
+/-- the app hash carried by block `k+1`'s header -/
+theorem hist_pred_ht (c : Chain) (k : Nat) : hist c (ht c (k + 1) - 1) = histK c k := by
+  have : ht c (k + 1) - 1 + 1 - c.ih = k := by rw [ht_succ]; simp [Chain.ih]
+  simp [hist, histK, this]
+
+theorem histK_succ (c : Chain) (k : Nat) :
+    histK c (k + 1) = histK c k ++ [(ht c (k + 1), c (ht c (k + 1)))] := by
+  have : c.ih + k = ht c (k + 1) := by rw [ht_succ]; simp [Chain.ih]; omega
+  simp [histK, List.range_succ, this]
+
+theorem histK_length (c : Chain) (k : Nat) : (histK c k).length = k := by simp [histK]
+
+theorem histK_take (c : Chain) (k j : Nat) : (histK c k).take (k - j) = histK c (k - j) := by
+  simp only [histK, ← List.map_take, List.take_range]
+  congr 2
+  omega
+
+theorem reported_histK (c : Chain) (k : Nat) : reportedHeight (histK c k) = ht c k := by
+  cases k with
+  | zero => simp [reportedHeight, histK]
+  | succ k =>
+    rw [histK_succ]
+    have := ht_pos c k
+    simp [reportedHeight]
+    omega
+
+/-- the application has committed the first `k` blocks (canonical history), reports their height,
+has the open execution `p`, and its journal drives the grammar automaton to exactly that state -/
+structure AppAt (c : Chain) (a : App) (k : Nat) (p : Option Pending) : Prop where
+  height : a.height = ht c k
+  hash : a.hash = histK c k
   pending : a.pending = p
-  run : jrun c ⟨0, none⟩ a.journal = some ⟨n, p⟩
+  run : jrun c ⟨0, none⟩ a.journal = some ⟨ht c k, p⟩
 
 theorem AppAt.restart {c a n p} (h : AppAt c a n p) : AppAt c (a.call .restart) n none := by
   refine ⟨?_, ?_, ?_, ?_⟩
@@ -38,24 +97,26 @@ theorem AppAt.initChain {c a} (h : AppAt c a 0 none) : AppAt c (a.call .initChai
   · simp [App.call, h.height]
   · simp [App.call, h.hash]
   · simp [App.call]
-  · simp [App.call, jrun_append, h.run, jrun, jstep]
+  · have := h.run
+    simp only [ht_zero] at this
+    simp [App.call, jrun_append, this, jrun, jstep]
 
 theorem AppAt.begin {c a n} (h : AppAt c a n none) :
-    AppAt c (a.call (.begin (n + 1))) n (some ⟨n + 1, [], false⟩) := by
+    AppAt c (a.call (.begin (ht c (n + 1)))) n (some ⟨ht c (n + 1), [], false⟩) := by
   refine ⟨?_, ?_, ?_, ?_⟩
   · simp [App.call, h.height]
   · simp [App.call, h.hash]
   · simp [App.call]
-  · simp [App.call, jrun_append, h.run, jrun, jstep]
+  · simp [App.call, jrun_append, h.run, jrun, jstep, nxt_ht]
 
 theorem AppAt.deliver {c a n hh txs tx} (h : AppAt c a n (some ⟨hh, txs, false⟩))
-    (ht : (c hh)[txs.length]? = some tx) :
+    (ht' : (c hh)[txs.length]? = some tx) :
     AppAt c (a.call (.deliver tx)) n (some ⟨hh, txs ++ [tx], false⟩) := by
   refine ⟨?_, ?_, ?_, ?_⟩
   · simp [App.call, h.height]
   · simp [App.call, h.hash]
   · simp [App.call, h.pending]
-  · simp [App.call, jrun_append, h.run, jrun, jstep, ht]
+  · simp [App.call, jrun_append, h.run, jrun, jstep, ht']
 
 theorem AppAt.endBlock {c a n hh} (h : AppAt c a n (some ⟨hh, c hh, false⟩)) :
     AppAt c (a.call (.endBlock hh)) n (some ⟨hh, c hh, true⟩) := by
@@ -65,15 +126,26 @@ theorem AppAt.endBlock {c a n hh} (h : AppAt c a n (some ⟨hh, c hh, false⟩))
   · simp [App.call, h.pending]
   · simp [App.call, jrun_append, h.run, jrun, jstep]
 
-theorem AppAt.commit {c a n} (h : AppAt c a n (some ⟨n + 1, c (n + 1), true⟩)) :
+theorem AppAt.commit {c a n} (h : AppAt c a n (some ⟨ht c (n + 1), c (ht c (n + 1)), true⟩)) :
     AppAt c (a.call .commit) (n + 1) none := by
   refine ⟨?_, ?_, ?_, ?_⟩
-  · simp [App.call, h.pending, h.height]
-  · simp [App.call, h.pending, h.hash, hist_succ]
+  · simp [App.call, h.pending]
+  · simp [App.call, h.pending, h.hash, histK_succ]
   · simp [App.call, h.pending]
   · have hp := h.pending
     simp only [App.call, hp]
     simp [jrun_append, h.run, jrun, jstep]
+
+/-- an older snapshot of the application itself -/
+theorem AppAt.restore {c a n p} (h : AppAt c a n p) (j : Nat) : AppAt c (a.restore j) (n - j) none := by
+  have hl : a.hash.length = n := by rw [h.hash, histK_length]
+  have hh : a.hash.take (a.hash.length - j) = histK c (n - j) := by
+    rw [hl, h.hash, histK_take]
+  refine ⟨?_, ?_, ?_, ?_⟩
+  · simp [App.restore, hh, reported_histK]
+  · simp [App.restore, hh]
+  · simp [App.restore, App.call]
+  · simp [App.restore, App.call, hh, reported_histK, jrun_append, h.run, jrun, jstep]
 
 /-! ## every-prefix predicates over effect lists -/
 
